@@ -42,6 +42,10 @@ from .token import (
 
 IGNORED_CHARS = "\n\r\ufeff\t ,"
 
+DIGITS = "0123456789"
+
+HEX_DIGITS = "0123456789abcdefABCDEF"
+
 SYMBOLS = {
     cls.value: cls
     for cls in (
@@ -233,7 +237,7 @@ class Lexer:
 
             self._position += 1
 
-            if not char.isalnum():
+            if char not in HEX_DIGITS:
                 break
 
         escape = self._source[start : self._position]
@@ -325,7 +329,7 @@ class Lexer:
             except IndexError:
                 pass
             else:
-                if char.isdigit():
+                if char in DIGITS:
                     raise UnexpectedCharacter(
                         'Unexpected character "%s"' % char,
                         self._position,
@@ -340,13 +344,13 @@ class Lexer:
         except IndexError:
             raise UnexpectedEOF(self._position, self._source)
 
-        if not (char.isdigit()):
+        if char not in DIGITS:
             raise UnexpectedCharacter(
                 'Unexpected character "%s"' % char, self._position, self._source
             )
 
         while True:
-            if char is not None and char.isdigit():
+            if char is not None and char in DIGITS:
                 self._position += 1
                 try:
                     char = self._source[self._position]
@@ -365,7 +369,7 @@ class Lexer:
             except IndexError:
                 break
 
-            if char == "_" or char in __ascii_letters or char.isdigit():
+            if char == "_" or char in __ascii_letters or char in DIGITS:
                 self._position += 1
             else:
                 break
@@ -415,7 +419,7 @@ class Lexer:
             return self._read_block_string()
         elif char == '"':
             return self._read_string()
-        elif char == "-" or char.isdigit():
+        elif char == "-" or char in DIGITS:
             return self._read_number()
         elif char == "_" or char in ascii_letters:
             return self._read_name()
